@@ -41,7 +41,7 @@ def _f(name, t, bits=None):
 # three variants of the type family; each cstruct object gets one variant, so "P"/"Q" differ across objects
 VARIANTS = [
     {
-        "P": _st([_f("a", U16), _f("arr", {"k": "a", "t": U8, "len": ["fixed", 3]}), _f("inn", _st([_f("x", U8), _f("y", U16)])), _f("s", {"k": "a", "t": S("char"), "len": ["fixed", 4]}), _f("z", U32)]),
+        "P": _st([_f("a", U16), _f("arr", {"k": "a", "t": U8, "len": ["fixed", 3]}), _f("inn", _st([_f("x", U8), _f("y", U16), _f("v", {"k": "a", "t": U8, "len": ["fixed", 2]}), _f("deep", _st([_f("w", {"k": "a", "t": U16, "len": ["fixed", 2]})]))])), _f("s", {"k": "a", "t": S("char"), "len": ["fixed", 4]}), _f("z", U32)]),
         "Q": _st([_f("n", U8), _f("v", {"k": "a", "t": U16, "len": ["expr", "n", ["id", "n"]]}), _f("t", S("int24"))]),
     },
     {
@@ -49,7 +49,7 @@ VARIANTS = [
         "Q": _st([_f("n", U8), _f("v", {"k": "a", "t": U8, "len": ["expr", "n + 1", ["bin", "+", ["id", "n"], ["lit", 1, "1"]]]}), _f("t", U16)]),
     },
     {
-        "P": _st([_f("b0", U8, 3), _f("b1", U8, 5), _f("a", S("int64")), _f("arr", {"k": "a", "t": _st([_f("p", U8), _f("q", U8)]), "len": ["fixed", 2]}), _f("inn", _st([_f("x", U32), _f("y", S("wchar"))])), _f("z", U16)]),
+        "P": _st([_f("b0", U8, 3), _f("b1", U8, 5), _f("a", S("int64")), _f("arr", {"k": "a", "t": _st([_f("p", U8), _f("q", {"k": "a", "t": U8, "len": ["fixed", 2]})]), "len": ["fixed", 2]}), _f("inn", _st([_f("x", U32), _f("y", S("wchar"))])), _f("z", U16)]),
         "Q": _st([_f("n", U8), _f("v", {"k": "a", "t": S("char"), "len": ["expr", "n", ["id", "n"]]}), _f("t", S("uint48"))]),
     },
 ]
